@@ -114,9 +114,11 @@ fn speak_rules(rules: &'static std::thread::LocalKey<RefCell<SpeechRules>>, math
         if !nav_node_id.is_empty() {
             // See https://github.com/NSoiffer/MathCAT/issues/174 for why we can just start the speech at the nav node
             if let Some(start) = speech_string.find("[[") {
-                match speech_string[start+2..].find("]]") {
+                // the intent tree can carry the node's id more than once (msubsup -> power(sub ...)), so the marks can nest or repeat:
+                //   take everything up to the last close and drop the marks inside
+                match speech_string[start+2..].rfind("]]") {
                     None => bail!("Internal error: looking for '[[...]]' during navigation -- only found '[[' in '{}'", speech_string),
-                    Some(end) => speech_string = speech_string[start+2..start+2+end].to_string(),
+                    Some(end) => speech_string = speech_string[start+2..start+2+end].replace("[[", "").replace("]]", ""),
                 }
             } else {
                 bail!(NAV_NODE_SPEECH_NOT_FOUND);
